@@ -304,3 +304,561 @@ Proof.
   destruct Hs0 as [L0 P0]. split; [congruence|]. split; [apply P1, P0|]. split; [exact Hv|].
   intros Hn Hz si Hsi. rewrite Hsi in H0. subst s0 v. apply (Z1 Hn Hz).
 Qed.
+
+(* ---- the QUSO kernel: sums over neighbour lists ---- *)
+Fixpoint nsum (g : nat -> Q -> Q) (l : list (nat * Q)) : Q := match l with [] => 0 | (n, J) :: l' => g n J + nsum g l' end.
+Lemma nsum_app g l l' : nsum g (l ++ l') == nsum g l + nsum g l'.
+Proof. induction l as [|[n J] l IH]; simpl; [ring|]. rewrite IH. ring. Qed.
+Lemma nsum_ext g g' l : (forall n J, In (n, J) l -> g n J == g' n J) -> nsum g l == nsum g' l.
+Proof.
+  induction l as [|[n J] l IH]; simpl; intros H; [reflexivity|].
+  rewrite (H n J (or_introl eq_refl)), IH; [reflexivity| intros n' J' Hin; apply H; right; exact Hin].
+Qed.
+
+Definition sz (s : list Z) (n : nat) : Q := zq (nth n s 0%Z).
+Definition ok_ge (only_ge : bool) (i n : nat) : bool := negb (only_ge && (n <? i)%nat).
+Lemma sub_energy_sum a s i b :
+  sub_energy a s i b == nth i (qh a) 0 + nsum (fun n J => if ok_ge b i n then J * sz s n else 0) (nth i (qnb a) []).
+Proof.
+  unfold sub_energy. generalize (nth i (qh a) 0) as acc. induction (nth i (qnb a) []) as [|[n J] l IH]; intros acc; simpl; [ring|].
+  rewrite IH. unfold ok_ge, sz. destruct (b && (n <? i)%nat); simpl; ring.
+Qed.
+
+(* weight between i and m as the kernel sees it from i's side *)
+Definition Wt (a : quso_args) (i m : nat) : Q := nsum (fun n J => if Nat.eqb n m then J else 0) (nth i (qnb a) []).
+Definition cf (a : quso_args) (s : list Z) (n : nat) : Q := -(2) * sz s n * sub_energy a s n false.
+
+Record args_ok (a : quso_args) (N : nat) : Prop := {
+  ok_lenh : length (qh a) = N;
+  ok_lennb : length (qnb a) = N;
+  ok_bound : forall i n J, In (n, J) (nth i (qnb a) []) -> (n < N)%nat;
+  ok_noself : forall i n J, In (n, J) (nth i (qnb a) []) -> n <> i;
+  ok_sym : forall i m, Wt a i m == Wt a m i }.
+
+Lemma nth_map_seq {A} (f : nat -> A) d : forall len start n, (n < len)%nat -> nth n (map f (seq start len)) d = f (start + n)%nat.
+Proof.
+  induction len as [|len IH]; intros start n Hn; [lia|]. simpl. destruct n as [|n]; [f_equal; lia|].
+  rewrite IH by lia. f_equal. lia.
+Qed.
+Lemma compute_flip_nth a s n : (n < length s)%nat -> nth n (compute_flip a s) 0 = cf a s n.
+Proof. intros Hn. unfold compute_flip. rewrite nth_map_seq by exact Hn. reflexivity. Qed.
+Lemma compute_flip_length a s : length (compute_flip a s) = length s.
+Proof. unfold compute_flip. rewrite map_length, seq_length. reflexivity. Qed.
+
+(* the incremental update, entry by entry *)
+Lemma recompute_fold c l : forall fl n, (n < length fl)%nat ->
+  nth n (fold_left (fun fl '(n', J) => upd n' (fun v => v + c n' * J) fl) l fl) 0
+  == nth n fl 0 + nsum (fun n' J => if Nat.eqb n' n then c n' * J else 0) l.
+Proof.
+  induction l as [|[n' J] l IH]; intros fl n Hn; simpl; [ring|].
+  rewrite IH by (rewrite upd_length; exact Hn).
+  destruct (Nat.eqb_spec n' n) as [->|Hne].
+  - rewrite nth_upd_same by exact Hn. ring.
+  - rewrite nth_upd_other by exact Hne. ring.
+Qed.
+Lemma recompute_flip_length a s fl spin : length (recompute_flip a s fl spin) = length fl.
+Proof.
+  assert (G : forall l f, length (fold_left (fun fl '(n, J) => upd n (fun v => v + 4 * zq (nth spin s 0%Z) * zq (nth n s 0%Z) * J) fl) l f) = length f).
+  { induction l as [|[n J] l IH]; intros f; simpl; [reflexivity|]. rewrite IH, upd_length. reflexivity. }
+  unfold recompute_flip. rewrite G, upd_length. reflexivity.
+Qed.
+
+Lemma nsum_factor (c : nat -> Q) n l :
+  nsum (fun n' J => if Nat.eqb n' n then c n' * J else 0) l == c n * nsum (fun n' J => if Nat.eqb n' n then J else 0) l.
+Proof.
+  induction l as [|[n' J] l IH]; simpl; [ring|]. rewrite IH. destruct (Nat.eqb_spec n' n) as [->|Hne]; ring.
+Qed.
+Lemma sz_flip_same s i : (i < length s)%nat -> sz (upd i Z.opp s) i == - sz s i.
+Proof. intros Hi. unfold sz, zq. rewrite nth_upd_same by exact Hi. rewrite inject_Z_opp. reflexivity. Qed.
+Lemma sz_flip_other s i n : i <> n -> sz (upd i Z.opp s) n = sz s n.
+Proof. intros Hne. unfold sz. rewrite nth_upd_other by exact Hne. reflexivity. Qed.
+Lemma nsum_flip s spin l : (spin < length s)%nat ->
+  nsum (fun m J => J * sz (upd spin Z.opp s) m) l
+  == nsum (fun m J => J * sz s m) l - 2 * sz s spin * nsum (fun m J => if Nat.eqb m spin then J else 0) l.
+Proof.
+  intros Hs. induction l as [|[m J] l IH]; simpl; [ring|]. rewrite IH.
+  destruct (Nat.eqb_spec m spin) as [->|Hne].
+  - rewrite sz_flip_same by exact Hs. ring.
+  - rewrite sz_flip_other by congruence. ring.
+Qed.
+Lemma nsum_noself_zero (l : list (nat * Q)) i : (forall n J, In (n, J) l -> n <> i) -> nsum (fun n J => if Nat.eqb n i then J else 0) l == 0.
+Proof.
+  induction l as [|[n J] l IH]; simpl; intros H; [reflexivity|].
+  destruct (Nat.eqb_spec n i) as [->|Hne]; [exfalso; apply (H i J); [left; reflexivity| reflexivity]|].
+  rewrite IH; [ring| intros n' J' Hin; apply (H n' J'); right; exact Hin].
+Qed.
+Lemma cf_sum a s n : cf a s n == -(2) * sz s n * (nth n (qh a) 0 + nsum (fun m J => J * sz s m) (nth n (qnb a) [])).
+Proof. unfold cf. rewrite sub_energy_sum. unfold ok_ge. simpl. reflexivity. Qed.
+
+(* the cached energy differences stay exact across an accepted flip *)
+Theorem recompute_correct a N s fl spin : args_ok a N -> length s = N -> (spin < N)%nat ->
+  length fl = N -> (forall n, (n < N)%nat -> nth n fl 0 == cf a s n) ->
+  length (recompute_flip a s fl spin) = N /\
+  forall n, (n < N)%nat -> nth n (recompute_flip a s fl spin) 0 == cf a (upd spin Z.opp s) n.
+Proof.
+  intros Ha Ls Hsp Lf Hfl. split; [rewrite recompute_flip_length; exact Lf|]. intros n Hn.
+  unfold recompute_flip.
+  rewrite (recompute_fold (fun n' => 4 * zq (nth spin s 0%Z) * zq (nth n' s 0%Z)) (nth spin (qnb a) []) _ n)
+    by (rewrite upd_length; lia).
+  rewrite nsum_factor. fold (Wt a spin n). fold (sz s spin) (sz s n).
+  rewrite !cf_sum, nsum_flip by lia. fold (Wt a n spin).
+  destruct (Nat.eq_dec n spin) as [->|Hne].
+  - rewrite nth_upd_same by lia. rewrite (Hfl spin Hsp), cf_sum, sz_flip_same by lia.
+    assert (W0 : Wt a spin spin == 0) by (apply nsum_noself_zero; intros n' J' Hin; apply (ok_noself a N Ha spin n' J' Hin)).
+    rewrite W0. ring.
+  - rewrite nth_upd_other by congruence. rewrite (Hfl n Hn), cf_sum, sz_flip_other by congruence.
+    rewrite (ok_sym a N Ha n spin). ring.
+Qed.
+
+(* ---- the arrays _anneal.py builds from the enumerated model ---- *)
+Definition fstep (a : quso_args) (kv : key * Q) : quso_args :=
+  let '(k, v) := kv in
+  match k with
+  | [i] => {| qh := upd i (fun _ => v) (qh a); qnb := qnb a |}
+  | [i; j] => {| qh := qh a; qnb := upd j (fun l => l ++ [(i, v)]) (upd i (fun l => l ++ [(j, v)]) (qnb a)) |}
+  | _ => a
+  end.
+Lemma quso_flatten_fold N t : quso_flatten N t = fold_left fstep t {| qh := repeat 0 N; qnb := repeat [] N |}.
+Proof. reflexivity. Qed.
+
+Definition kvalid (N : nat) (k : key) : Prop :=
+  k = [] \/ (exists i, k = [i] /\ (i < N)%nat) \/ (exists i j, k = [i; j] /\ (i < N)%nat /\ (j < N)%nat /\ i <> j).
+Definition qvalid (N : nat) (t : terms) : Prop := forall k v, In (k, v) t -> kvalid N k.
+
+Lemma nth_upd_app {A} (x : A) : forall j (L : list (list A)) i,
+  nth i (upd j (fun l => l ++ [x]) L) [] = if Nat.eqb i j && (j <? length L)%nat then nth i L [] ++ [x] else nth i L [].
+Proof.
+  induction j as [|j IH]; intros L i; destruct L as [|l L]; simpl.
+  - destruct i; simpl; rewrite ?andb_false_r; reflexivity.
+  - destruct i; reflexivity.
+  - destruct i; simpl; rewrite ?andb_false_r; reflexivity.
+  - destruct i as [|i]; [reflexivity|]. rewrite IH. reflexivity.
+Qed.
+
+Lemma nb_step a a' i0 j0 v N i : a' = fstep a ([i0; j0], v) -> length (qnb a) = N -> (i0 < N)%nat -> (j0 < N)%nat -> i0 <> j0 ->
+  nth i (qnb a') [] =
+  nth i (qnb a) [] ++ (if Nat.eqb i i0 then [(j0, v)] else []) ++ (if Nat.eqb i j0 then [(i0, v)] else []).
+Proof.
+  intros -> L Hi Hj Hne. cbn [fstep qnb]. rewrite !nth_upd_app, upd_length, L.
+  assert (E1 : (i0 <? N)%nat = true) by (apply Nat.ltb_lt; exact Hi).
+  assert (E2 : (j0 <? N)%nat = true) by (apply Nat.ltb_lt; exact Hj). rewrite E1, E2, !andb_true_r.
+  destruct (Nat.eqb_spec i j0) as [H1|H1]; destruct (Nat.eqb_spec i i0) as [H2|H2]; try congruence; rewrite ?app_nil_r; reflexivity.
+Qed.
+
+Lemma Wt_step a a' i0 j0 v N i m : a' = fstep a ([i0; j0], v) -> length (qnb a) = N -> (i0 < N)%nat -> (j0 < N)%nat -> i0 <> j0 ->
+  Wt a' i m ==
+  Wt a i m + (if Nat.eqb i i0 && Nat.eqb j0 m then v else 0) + (if Nat.eqb i j0 && Nat.eqb i0 m then v else 0).
+Proof.
+  intros E L Hi Hj Hne. unfold Wt. rewrite (nb_step a a' i0 j0 v N i E L Hi Hj Hne), !nsum_app.
+  destruct (Nat.eqb i i0), (Nat.eqb i j0); simpl; destruct (Nat.eqb j0 m), (Nat.eqb i0 m); simpl; ring.
+Qed.
+
+Lemma fstep_ok a N k v : args_ok a N -> kvalid N k -> args_ok (fstep a (k, v)) N.
+Proof.
+  intros Ha [->|[(i & -> & Hi)|(i & j & -> & Hi & Hj & Hne)]]; [exact Ha| |].
+  - destruct Ha as [A B C0 D E]. constructor; cbn [fstep qh qnb]; [rewrite upd_length; exact A| exact B| exact C0| exact D| exact E].
+  - pose proof (ok_lennb a N Ha) as L.
+    cut (forall a', a' = fstep a ([i; j], v) -> args_ok a' N); [intros G; apply G; reflexivity|]. intros a' Ea'.
+    constructor.
+    + rewrite Ea'. cbn [fstep qh]. apply (ok_lenh a N Ha).
+    + rewrite Ea'. cbn [fstep qnb]. rewrite !upd_length. exact L.
+    + intros i1 n J Hin. rewrite (nb_step a a' i j v N i1 Ea' L Hi Hj Hne) in Hin.
+      apply in_app_or in Hin. destruct Hin as [Hin|Hin]; [apply (ok_bound a N Ha i1 n J Hin)|].
+      apply in_app_or in Hin. destruct Hin as [Hin|Hin].
+      * destruct (Nat.eqb i1 i); [|destruct Hin]. destruct Hin as [E|[]]. injection E as <- _. exact Hj.
+      * destruct (Nat.eqb i1 j); [|destruct Hin]. destruct Hin as [E|[]]. injection E as <- _. exact Hi.
+    + intros i1 n J Hin. rewrite (nb_step a a' i j v N i1 Ea' L Hi Hj Hne) in Hin.
+      apply in_app_or in Hin. destruct Hin as [Hin|Hin]; [apply (ok_noself a N Ha i1 n J Hin)|].
+      apply in_app_or in Hin. destruct Hin as [Hin|Hin].
+      * destruct (Nat.eqb_spec i1 i) as [->|]; [|destruct Hin]. destruct Hin as [E|[]]. injection E as <- _. congruence.
+      * destruct (Nat.eqb_spec i1 j) as [->|]; [|destruct Hin]. destruct Hin as [E|[]]. injection E as <- _. congruence.
+    + intros i1 m. rewrite !(Wt_step a a' i j v N _ _ Ea' L Hi Hj Hne), (ok_sym a N Ha i1 m).
+      destruct (Nat.eqb_spec i1 i), (Nat.eqb_spec j m), (Nat.eqb_spec i1 j), (Nat.eqb_spec i m),
+               (Nat.eqb_spec m i), (Nat.eqb_spec j i1), (Nat.eqb_spec m j), (Nat.eqb_spec i i1); subst; simpl; try congruence; ring.
+Qed.
+
+Lemma init_ok N : args_ok {| qh := repeat 0 N; qnb := repeat [] N |} N.
+Proof.
+  assert (Hn : forall i, nth i (repeat (@nil (nat * Q)) N) [] = []).
+  { intros i. destruct (Nat.lt_ge_cases i N); [apply nth_repeat| apply nth_overflow; rewrite repeat_length; exact H]. }
+  constructor; cbn [qh qnb]; try apply repeat_length.
+  - intros i n J Hin. rewrite Hn in Hin. destruct Hin.
+  - intros i n J Hin. rewrite Hn in Hin. destruct Hin.
+  - intros i m. unfold Wt. cbn [qnb]. rewrite !Hn. reflexivity.
+Qed.
+
+Theorem flatten_ok N t : qvalid N t -> args_ok (quso_flatten N t) N.
+Proof.
+  rewrite quso_flatten_fold. generalize (init_ok N). generalize ({| qh := repeat 0 N; qnb := repeat [] N |}).
+  induction t as [|[k v] t IH]; intros a Ha Hv; simpl; [exact Ha|].
+  apply IH; [apply fstep_ok; [exact Ha| apply (Hv k v); left; reflexivity]|].
+  intros k0 v0 Hin. apply (Hv k0 v0). right. exact Hin.
+Qed.
+
+(* ---- ... and compute the model's energy ---- *)
+Definition contrib (b : bool) (s : list Z) (i : nat) (k : key) (v : Q) : Q :=
+  match k with
+  | [a0] => if Nat.eqb i a0 then v else 0
+  | [a0; b0] => (if Nat.eqb i a0 then (if ok_ge b i b0 then v * sz s b0 else 0) else 0)
+              + (if Nat.eqb i b0 then (if ok_ge b i a0 then v * sz s a0 else 0) else 0)
+  | _ => 0
+  end.
+
+Lemma nth_upd_const {A} (v d : A) : forall i0 l i, (i0 < length l)%nat -> nth i (upd i0 (fun _ => v) l) d = if Nat.eqb i i0 then v else nth i l d.
+Proof.
+  induction i0 as [|i0 IH]; intros l i Hl; destruct l as [|x l]; simpl in *; try lia.
+  - destruct i; reflexivity.
+  - destruct i as [|i]; [reflexivity|]. apply IH. lia.
+Qed.
+
+Lemma SE_step a a' N s k v i b : a' = fstep a (k, v) -> length (qh a) = N -> length (qnb a) = N -> kvalid N k ->
+  (forall i0, k = [i0] -> nth i0 (qh a) 0 == 0) ->
+  sub_energy a' s i b == sub_energy a s i b + contrib b s i k v.
+Proof.
+  intros Ea Lh Ln [->|[(i0 & -> & Hi)|(i0 & j0 & -> & Hi & Hj & Hne)]] H0.
+  - subst a'. simpl. ring.
+  - rewrite !sub_energy_sum. subst a'. cbn [fstep qh qnb contrib]. rewrite nth_upd_const by lia.
+    destruct (Nat.eqb_spec i i0) as [->|Hn]; [rewrite (H0 i0 eq_refl); ring| ring].
+  - rewrite !sub_energy_sum. rewrite (nb_step a a' i0 j0 v N i Ea Ln Hi Hj Hne), !nsum_app.
+    assert (Eh : qh a' = qh a) by (subst a'; reflexivity). rewrite Eh. cbn [contrib].
+    destruct (Nat.eqb i i0), (Nat.eqb i j0); simpl; ring.
+Qed.
+
+Lemma fstep_lengths a k v N : length (qh a) = N -> length (qnb a) = N -> length (qh (fstep a (k, v))) = N /\ length (qnb (fstep a (k, v))) = N.
+Proof.
+  intros Lh Ln. destruct k as [|i [|j [|? ?]]]; cbn [fstep qh qnb]; rewrite ?upd_length; auto.
+Qed.
+
+Lemma SE_fold N s i b : forall t a,
+  length (qh a) = N -> length (qnb a) = N -> qvalid N t -> NoDup (map fst t) ->
+  (forall i0 v, In ([i0], v) t -> nth i0 (qh a) 0 == 0) ->
+  sub_energy (fold_left fstep t a) s i b == sub_energy a s i b + sum_terms t (contrib b s i).
+Proof.
+  induction t as [|[k v] t IH]; intros a Lh Ln Hv Hnd H0; cbn [fold_left sum_terms]; [ring|].
+  destruct (fstep_lengths a k v N Lh Ln) as [Lh1 Ln1]. cbn [map fst] in Hnd. apply NoDup_cons_iff in Hnd. destruct Hnd as [Hk Hnd'].
+  rewrite IH; try assumption.
+  - rewrite (SE_step a _ N s k v i b eq_refl Lh Ln (Hv k v (or_introl eq_refl))); [ring|].
+    intros i0 ->. apply (H0 i0 v). left. reflexivity.
+  - intros k0 v0 Hin. apply (Hv k0 v0). right. exact Hin.
+  - intros i0 v0 Hin. destruct k as [|i1 [|j1 [|? ?]]]; cbn [fstep qh]; try (apply (H0 i0 v0); right; exact Hin).
+    destruct (Nat.eq_dec i0 i1) as [->|Hne].
+    + exfalso. apply Hk. simpl. apply (in_map fst) in Hin. exact Hin.
+    + destruct (Nat.lt_ge_cases i1 (length (qh a))) as [Hl|Hl].
+      * rewrite nth_upd_const by exact Hl. destruct (Nat.eqb_spec i0 i1); [congruence|]. apply (H0 i0 v0). right. exact Hin.
+      * assert (U : upd i1 (fun _ : Q => v) (qh a) = qh a).
+        { clear -Hl. revert i1 Hl. induction (qh a) as [|x l IH]; intros i1 Hl; destruct i1; simpl in *; try reflexivity; try lia. rewrite IH by lia. reflexivity. }
+        rewrite U. apply (H0 i0 v0). right. exact Hin.
+Qed.
+
+Lemma SE_init N s i b : sub_energy {| qh := repeat 0 N; qnb := repeat [] N |} s i b == 0.
+Proof.
+  rewrite sub_energy_sum. cbn [qh qnb].
+  assert (H1 : nth i (repeat 0 N) 0 = 0) by (destruct (Nat.lt_ge_cases i N); [apply nth_repeat| apply nth_overflow; rewrite repeat_length; assumption]).
+  assert (H2 : nth i (repeat (@nil (nat * Q)) N) [] = []) by (destruct (Nat.lt_ge_cases i N); [apply nth_repeat| apply nth_overflow; rewrite repeat_length; assumption]).
+  rewrite H1, H2. simpl. ring.
+Qed.
+
+Theorem flatten_sub_energy N t s i b : qvalid N t -> NoDup (map fst t) ->
+  sub_energy (quso_flatten N t) s i b == sum_terms t (contrib b s i).
+Proof.
+  intros Hv Hnd. rewrite quso_flatten_fold, (SE_fold N s i b t); try assumption; try apply repeat_length.
+  - rewrite SE_init. ring.
+  - intros i0 v _. cbn [qh]. destruct (Nat.lt_ge_cases i0 N); [rewrite nth_repeat; reflexivity| rewrite nth_overflow; [reflexivity| rewrite repeat_length; assumption]].
+Qed.
+
+Lemma sum_terms_ext a g g' : (forall k c, In (k, c) a -> g k c == g' k c) -> sum_terms a g == sum_terms a g'.
+Proof.
+  induction a as [|[k c] a IH]; simpl; intros H; [reflexivity|].
+  rewrite (H k c (or_introl eq_refl)), IH; [reflexivity| intros k' c' Hin; apply H; right; exact Hin].
+Qed.
+Lemma sum_terms_scale a g c0 : sum_terms a (fun k c => c0 * g k c) == c0 * sum_terms a g.
+Proof. induction a as [|[k c] a IH]; simpl; [ring|]. rewrite IH. ring. Qed.
+Lemma sum_terms_flatten t g : (forall c, g [] c == 0) -> sum_terms (puso_flatten t) g == sum_terms t g.
+Proof.
+  intros H0. unfold puso_flatten. induction t as [|[k c] t IH]; simpl; [reflexivity|].
+  destruct k as [|x k]; simpl; rewrite IH; [rewrite H0; ring| reflexivity].
+Qed.
+Lemma zq_tprod1 s a0 : zq (tprod s [a0]) == sz s a0.
+Proof. unfold zq, sz, zq. simpl. rewrite Z.mul_1_r. reflexivity. Qed.
+Lemma zq_tprod2 s a0 b0 : zq (tprod s [a0; b0]) == sz s a0 * sz s b0.
+Proof. unfold zq, sz, zq. simpl. rewrite Z.mul_1_r, inject_Z_mult. reflexivity. Qed.
+
+Lemma nodup_keys_flatten N t : qvalid N t -> nodup_keys (puso_flatten t).
+Proof.
+  intros Hv k c Hin. unfold puso_flatten in Hin. apply filter_In in Hin. destruct Hin as [Hin _].
+  destruct (Hv k c Hin) as [->|[(i & -> & _)|(i & j & -> & _ & _ & Hne)]]; [constructor| |].
+  - constructor; [intros []| constructor].
+  - constructor; [intros [E|[]]; congruence|]. constructor; [intros []| constructor].
+Qed.
+
+(* the cached entry for spin i is the exact energy difference of flipping i in the model *)
+Theorem quso_flip_energy N t s i : qvalid N t -> NoDup (map fst t) -> (i < length s)%nat ->
+  cf (quso_flatten N t) s i == E_puso (puso_flatten t) (upd i Z.opp s) - E_puso (puso_flatten t) s.
+Proof.
+  intros Hv Hnd Hi. rewrite (puso_flip_energy _ s i (nodup_keys_flatten N t Hv) Hi).
+  unfold puso_subgraph_value. rewrite subgraph_value_sum, sum_terms_flatten by (intros c; simpl; ring).
+  unfold cf. rewrite (flatten_sub_energy N t s i false Hv Hnd).
+  assert (E : -(2) * sz s i * sum_terms t (contrib false s i)
+            == -(2) * sum_terms t (fun k c => inject_Z (Z.of_nat (count i k)) * (c * zq (tprod s k)))); [|rewrite E; ring].
+  rewrite <- Qmult_assoc. apply Qmult_comp; [reflexivity|]. rewrite <- sum_terms_scale. apply sum_terms_ext.
+  intros k c Hin. destruct (Hv k c Hin) as [->|[(a0 & -> & _)|(a0 & b0 & -> & _ & _ & Hne)]].
+  - simpl. ring.
+  - cbn [contrib count]. rewrite zq_tprod1. destruct (Nat.eqb_spec i a0) as [->|Hn].
+    + rewrite Nat.eqb_refl. simpl. ring.
+    + destruct (Nat.eqb_spec a0 i); [congruence|]. simpl. ring.
+  - cbn [contrib count]. rewrite zq_tprod2. unfold ok_ge. cbn [andb negb].
+    destruct (Nat.eqb_spec i a0) as [H1|H1]; destruct (Nat.eqb_spec i b0) as [H2|H2]; try congruence.
+    + subst i. rewrite Nat.eqb_refl. destruct (Nat.eqb_spec b0 a0); [congruence|]. simpl. ring.
+    + subst i. rewrite Nat.eqb_refl. destruct (Nat.eqb_spec a0 b0); [congruence|]. simpl. ring.
+    + destruct (Nat.eqb_spec a0 i); [congruence|]. destruct (Nat.eqb_spec b0 i); [congruence|]. simpl. ring.
+Qed.
+
+(* ---- the value the kernel reports ---- *)
+Fixpoint isum (g : nat -> Q) (l : list nat) : Q := match l with [] => 0 | i :: l' => g i + isum g l' end.
+Lemma isum_fold g l : forall acc, fold_left (fun acc i => acc + g i) l acc == acc + isum g l.
+Proof. induction l as [|i l IH]; intros acc; simpl; [ring|]. rewrite IH. ring. Qed.
+Lemma isum_ext g g' l : (forall i, In i l -> g i == g' i) -> isum g l == isum g' l.
+Proof. induction l as [|i l IH]; simpl; intros H; [reflexivity|]. rewrite (H i (or_introl eq_refl)), IH; [reflexivity| intros j Hj; apply H; right; exact Hj]. Qed.
+Lemma isum_add g h l : isum (fun i => g i + h i) l == isum g l + isum h l.
+Proof. induction l as [|i l IH]; simpl; [ring|]. rewrite IH. ring. Qed.
+Lemma isum_zero l : isum (fun _ => 0) l == 0.
+Proof. induction l as [|i l IH]; simpl; [reflexivity|]. rewrite IH. ring. Qed.
+Lemma isum_delta_notin g a0 l : ~ In a0 l -> isum (fun i => if Nat.eqb i a0 then g i else 0) l == 0.
+Proof.
+  induction l as [|i l IH]; simpl; intros H; [reflexivity|]. destruct (Nat.eqb_spec i a0) as [->|Hne]; [exfalso; apply H; left; reflexivity|].
+  rewrite IH; [ring| tauto].
+Qed.
+Lemma isum_delta g a0 l : NoDup l -> In a0 l -> isum (fun i => if Nat.eqb i a0 then g i else 0) l == g a0.
+Proof.
+  induction l as [|i l IH]; simpl; intros Hn Hin; [destruct Hin|]. inversion Hn as [|? ? Hi Hl]; subst.
+  destruct (Nat.eqb_spec i a0) as [->|Hne].
+  - rewrite isum_delta_notin by exact Hi. ring.
+  - destruct Hin as [->|Hin]; [congruence|]. rewrite IH by assumption. ring.
+Qed.
+Lemma isum_sum_terms (F : nat -> key -> Q -> Q) t l :
+  isum (fun i => sum_terms t (F i)) l == sum_terms t (fun k v => isum (fun i => F i k v) l).
+Proof.
+  induction t as [|[k v] t IH]; simpl; [apply isum_zero|]. rewrite isum_add, IH. reflexivity.
+Qed.
+
+Theorem quso_kernel_value_model N t s : qvalid N t -> NoDup (map fst t) -> length s = N ->
+  quso_kernel_value (quso_flatten N t) s == E_puso (puso_flatten t) s.
+Proof.
+  intros Hv Hnd Ls. unfold quso_kernel_value, E_puso, puso_kernel_value.
+  rewrite (isum_fold (fun i => zq (nth i s 0%Z) * sub_energy (quso_flatten N t) s i true)), kernel_value_sum. rewrite Ls.
+  rewrite (isum_ext _ (fun i => sum_terms t (fun k v => sz s i * contrib true s i k v))).
+  2:{ intros i _. rewrite (flatten_sub_energy N t s i true Hv Hnd), <- sum_terms_scale. reflexivity. }
+  rewrite (isum_sum_terms (fun i k v => sz s i * contrib true s i k v)).
+  pose proof (sum_terms_flatten t (fun (k : key) v => isum (fun i => sz s i * contrib true s i k v) (seq 0 N))) as EF.
+  rewrite <- EF by (intros c; cbn [contrib]; rewrite (isum_ext _ (fun _ => 0)) by (intros; ring); apply isum_zero). clear EF.
+  assert (E : sum_terms (puso_flatten t) (fun (k : key) v => isum (fun i => sz s i * contrib true s i k v) (seq 0 N))
+              == sum_terms (puso_flatten t) (fun (k : key) c => c * zq (tprod s k))); [|rewrite E; ring].
+  apply sum_terms_ext. intros k c Hin. unfold puso_flatten in Hin. apply filter_In in Hin. destruct Hin as [Hin Hne0].
+  destruct (Hv k c Hin) as [->|[(a0 & -> & Ha)|(a0 & b0 & -> & Ha & Hb & Hne)]]; [discriminate| |].
+  - cbn [contrib]. rewrite (isum_ext _ (fun i => if Nat.eqb i a0 then sz s i * c else 0)) by (intros i _; destruct (Nat.eqb i a0); ring).
+    rewrite isum_delta; [|apply seq_NoDup| apply in_seq; lia]. rewrite zq_tprod1. ring.
+  - cbn [contrib].
+    rewrite (isum_ext _ (fun i => (if Nat.eqb i a0 then sz s i * (if ok_ge true i b0 then c * sz s b0 else 0) else 0)
+                                + (if Nat.eqb i b0 then sz s i * (if ok_ge true i a0 then c * sz s a0 else 0) else 0)))
+      by (intros i _; destruct (Nat.eqb i a0), (Nat.eqb i b0); ring).
+    rewrite isum_add, !isum_delta; try apply seq_NoDup; try (apply in_seq; lia).
+    rewrite zq_tprod2. unfold ok_ge. cbn [andb].
+    destruct (Nat.ltb_spec b0 a0), (Nat.ltb_spec a0 b0); cbn [negb]; try lia; ring.
+Qed.
+
+(* ---- simulation of folds ---- *)
+Lemma opt_fold_sim {A B C} (P : A -> Prop) (proj : A -> B) (f : A -> C -> option A) (g : B -> C -> option B) l :
+  (forall a c, P a -> In c l -> option_map proj (f a c) = g (proj a) c /\ forall a', f a c = Some a' -> P a') ->
+  forall a, P a -> option_map proj (opt_fold f l a) = opt_fold g l (proj a) /\ forall a', opt_fold f l a = Some a' -> P a'.
+Proof.
+  unfold opt_fold. induction l as [|c l IH]; intros Hs a Pa; simpl.
+  - split; [reflexivity| intros a' [= <-]; exact Pa].
+  - destruct (Hs a c Pa (or_introl eq_refl)) as [E1 E2].
+    destruct (f a c) as [a1|] eqn:Ef; simpl in E1; rewrite <- E1.
+    + apply IH; [intros a0 c0 P0 Hin; apply Hs; [exact P0| right; exact Hin]| apply E2; reflexivity].
+    + rewrite !opt_fold_none. split; [reflexivity| discriminate].
+Qed.
+
+Definition metro_single (E : list Z -> Q) (tab : exptab) (io : bool) (Ts : list Q) (r : rng) (s : list Z) : option (rng * list Z) :=
+  opt_fold (fun rs T => opt_fold (metro_step E tab io T) (seq 0 (length s)) rs) Ts (r, s).
+
+(* ---- the QUSO kernel runs that chain ---- *)
+Definition kinv (a : quso_args) (N : nat) (k : kstate) : Prop :=
+  length (ks_state k) = N /\ length (ks_flip k) = N /\ forall n, (n < N)%nat -> nth n (ks_flip k) 0 == cf a (ks_state k) n.
+Definition exact_dE (a : quso_args) (N : nat) (E : list Z -> Q) : Prop :=
+  forall s i, length s = N -> (i < N)%nat -> cf a s i == E (upd i Z.opp s) - E s.
+
+Theorem quso_step_refines a N E tab io T k j : args_ok a N -> exact_dE a N E -> kinv a N k -> (j < N)%nat ->
+  option_map (fun k' => (ks_rng k', ks_state k')) (quso_step a tab io T k j) = metro_step E tab io T (ks_rng k, ks_state k) j
+  /\ forall k', quso_step a tab io T k j = Some k' -> kinv a N k'.
+Proof.
+  intros Ha HE (Ls & Lf & Hf) Hj. unfold quso_step, metro_step. rewrite Ls.
+  destruct (if io then Some (ks_rng k, j) else rand_int (ks_rng k) N) as [[r1 i]|] eqn:Ei; [|split; [reflexivity| discriminate]].
+  assert (Hi : (i < N)%nat) by (destruct io; [injection Ei as <- <-; exact Hj| eapply rand_int_lt, Ei]).
+  assert (EdE : nth i (ks_flip k) 0 == E (upd i Z.opp (ks_state k)) - E (ks_state k)) by (rewrite (Hf i Hi); apply HE; assumption).
+  rewrite (accept_ext tab r1 _ _ T EdE).
+  destruct (accept tab r1 _ T) as [[r2 [|]]|]; (split; [reflexivity|]); intros k' H; try discriminate; injection H as <-.
+  - destruct (recompute_correct a N (ks_state k) (ks_flip k) i Ha Ls Hi Lf Hf) as [A B].
+    split; [cbn [ks_state]; rewrite upd_length; exact Ls|]. split; [exact A| exact B].
+  - split; [exact Ls|]. split; [exact Lf| exact Hf].
+Qed.
+
+Theorem quso_single_refines a N E tab io Ts r s : args_ok a N -> exact_dE a N E -> length s = N ->
+  quso_single a tab io Ts r s = metro_single E tab io Ts r s.
+Proof.
+  intros Ha HE Ls. unfold quso_single, metro_single.
+  set (k0 := {| ks_rng := r; ks_state := s; ks_flip := compute_flip a s |}).
+  assert (K0 : kinv a N k0).
+  { split; [exact Ls|]. split; [cbn [ks_flip k0]; rewrite compute_flip_length; exact Ls|].
+    intros n Hn. cbn [ks_flip ks_state k0]. rewrite compute_flip_nth by lia. reflexivity. }
+  set (proj := fun k' : kstate => (ks_rng k', ks_state k')).
+  destruct (opt_fold_sim (kinv a N) proj
+              (fun k T => opt_fold (quso_step a tab io T) (seq 0 (length s)) k)
+              (fun rs T => opt_fold (metro_step E tab io T) (seq 0 (length s)) rs) Ts) with (a := k0) as [S1 _].
+  - intros k T Pk _.
+    apply (opt_fold_sim (kinv a N) proj (quso_step a tab io T) (metro_step E tab io T) (seq 0 (length s))); [|exact Pk].
+    intros k1 j P1 Hj. apply in_seq in Hj. rewrite Ls in Hj.
+    destruct (quso_step_refines a N E tab io T k1 j Ha HE P1 ltac:(lia)) as [R1 R2]. split; [exact R1| exact R2].
+  - exact K0.
+  - change (proj k0) with (r, s) in S1. rewrite <- S1. destruct (opt_fold _ Ts k0); reflexivity.
+Qed.
+
+Theorem puso_single_refines a tab io Ts r s : nodup_keys a ->
+  puso_single a tab io Ts r s = metro_single (E_puso a) tab io Ts r s.
+Proof.
+  intros Hn. unfold puso_single, metro_single.
+  set (k0 := {| ps_rng := r; ps_state := s |}). set (N := length s).
+  set (proj := fun k' : pstate => (ps_rng k', ps_state k')).
+  set (P := fun k : pstate => length (ps_state k) = N).
+  destruct (opt_fold_sim P proj
+              (fun k T => opt_fold (puso_step a tab io T) (seq 0 N) k)
+              (fun rs T => opt_fold (metro_step (E_puso a) tab io T) (seq 0 N) rs) Ts) with (a := k0) as [S1 _].
+  - intros k T Pk _.
+    apply (opt_fold_sim P proj (puso_step a tab io T) (metro_step (E_puso a) tab io T) (seq 0 N)); [|exact Pk].
+    intros k1 j P1 Hj. apply in_seq in Hj. unfold P in P1. split.
+    + apply puso_step_refines; [exact Hn| lia].
+    + intros k' Hs. destruct (puso_step_shape _ _ _ _ _ _ _ Hs) as [L _]. unfold P. congruence.
+  - reflexivity.
+  - change (proj k0) with (r, s) in S1. rewrite <- S1. destruct (opt_fold _ Ts k0); reflexivity.
+Qed.
+
+(* ---- properties of the chain, inherited by both kernels ---- *)
+Lemma metro_step_shape E tab io T r s j r' s' : metro_step E tab io T (r, s) j = Some (r', s') ->
+  length s' = length s /\ (pm1 s -> pm1 s').
+Proof.
+  unfold metro_step. destruct (if io then _ else _) as [[r1 i]|]; [|discriminate].
+  destruct (accept tab r1 _ T) as [[r2 [|]]|]; intros H; try discriminate; injection H as <- <-.
+  - split; [apply upd_length| apply pm1_upd].
+  - auto.
+Qed.
+(* zero temperature, visiting in order: spin j is flipped exactly when that does not raise the energy; no random number is used *)
+Theorem metro_step_zero_inorder E tab T r s j : T == 0 ->
+  metro_step E tab true T (r, s) j = Some (r, if qle0 (E (upd j Z.opp s) - E s) then upd j Z.opp s else s).
+Proof. intros HT. unfold metro_step. rewrite (accept_zero tab r _ T HT). destruct (qle0 _); reflexivity. Qed.
+Lemma metro_step_zero E tab io T r s j r' s' : T == 0 -> metro_step E tab io T (r, s) j = Some (r', s') -> E s' <= E s.
+Proof.
+  intros HT. unfold metro_step. destruct (if io then _ else _) as [[r1 i]|]; [|discriminate].
+  rewrite (accept_zero tab r1 _ T HT). destruct (qle0 (E (upd i Z.opp s) - E s)) eqn:Eq; intros H; injection H as <- <-.
+  - apply qle0_spec in Eq. lra.
+  - apply Qle_refl.
+Qed.
+
+Theorem metro_single_spec E tab io Ts r s r' s' : metro_single E tab io Ts r s = Some (r', s') ->
+  length s' = length s /\ (pm1 s -> pm1 s') /\ (all_zero Ts -> E s' <= E s).
+Proof.
+  unfold metro_single. intros EF.
+  set (P := fun rs : rng * list Z => length (snd rs) = length s /\ (pm1 s -> pm1 (snd rs))).
+  assert (HP : P (r', s')).
+  { refine (opt_fold_inv P _ _ Ts (r, s) (r', s') EF _); [|split; [reflexivity| auto]].
+    intros rs T rs' Hs. refine (opt_fold_inv P _ _ _ rs rs' Hs).
+    intros [r0 s0] j [r1 s1] Hst [A B]. destruct (metro_step_shape _ _ _ _ _ _ _ _ _ Hst) as [A1 B1]. split; simpl in *; [congruence| auto]. }
+  destruct HP as [A B]. split; [exact A|]. split; [exact B|]. intros Hz.
+  set (Q0 := fun rs : rng * list Z => E (snd rs) <= E s).
+  assert (HQ : Q0 (r', s')); [|exact HQ].
+  refine (opt_fold_inv_in Q0 _ Ts _ (r, s) (r', s') EF _); [|apply Qle_refl].
+  intros rs T rs' HT Hs. refine (opt_fold_inv Q0 _ _ _ rs rs' Hs).
+  intros [r0 s0] j [r1 s1] Hst B0. unfold Q0 in *. simpl in *. eapply Qle_trans; [|exact B0].
+  eapply metro_step_zero; [apply Hz, HT| exact Hst].
+Qed.
+
+(* ---- value of a state: kernel value + offset = the model at that state ---- *)
+Definition env_of (s : list Z) : env := fun i => zq (nth i s 0%Z).
+Lemma mon_tprod s k : mon (env_of s) k == zq (tprod s k).
+Proof. induction k as [|i k IH]; simpl; [reflexivity|]. rewrite IH. unfold env_of, zq. rewrite inject_Z_mult. reflexivity. Qed.
+Lemma get_sq_notin (t : terms) k : ~ In k (map fst t) -> get_sq t k = 0.
+Proof.
+  unfold get_sq. induction t as [|[k' v'] t IH]; simpl; intros H; [reflexivity|].
+  destruct (key_eqb k k') eqn:E; [apply key_eqb_eq in E; subst; exfalso; apply H; left; reflexivity|]. apply IH. tauto.
+Qed.
+Theorem value_with_offset t s : NoDup (map fst t) -> E_puso (puso_flatten t) s + get_sq t [] == eval (env_of s) t.
+Proof.
+  unfold E_puso, puso_kernel_value. rewrite kernel_value_sum.
+  induction t as [|[k v] t IH]; intros Hnd; [unfold get_sq, puso_flatten; simpl; ring|].
+  cbn [map fst] in Hnd. apply NoDup_cons_iff in Hnd. destruct Hnd as [Hk Hnd]. specialize (IH Hnd).
+  destruct k as [|x k].
+  - cbn [puso_flatten filter eval mon]. fold (puso_flatten t). unfold get_sq at 1. cbn [lookup key_eqb].
+    rewrite (get_sq_notin t [] Hk) in IH. lra.
+  - cbn [puso_flatten filter eval sum_terms]. fold (puso_flatten t).
+    unfold get_sq in *. cbn [lookup key_eqb]. rewrite mon_tprod. lra.
+Qed.
+
+(* ---- a whole call of a kernel ---- *)
+Theorem anneal_metro_spec single value E tab io Ts len init n r res :
+  anneal_loop single value n len init r = Some res ->
+  (forall r0 s0, length s0 = len -> single r0 s0 = metro_single E tab io Ts r0 s0) ->
+  match init with Some si => length si = len /\ pm1 si | None => True end ->
+  length res = n /\
+  forall s v, In (s, v) res ->
+    length s = len /\ pm1 s /\ v = value s /\ (all_zero Ts -> forall si, init = Some si -> E s <= E si).
+Proof.
+  intros H Hsingle Hinit. destruct (anneal_loop_spec _ _ _ _ _ _ _ H) as [A B]. split; [exact A|].
+  intros s v Hin. destruct (B s v Hin) as (Hv & r1 & s0 & r2 & Hs & H0).
+  assert (Hs0 : length s0 = len /\ pm1 s0).
+  { destruct init as [si|]; [subst s0; exact Hinit|]. destruct H0 as [r0 Hr]. apply (random_state_spec _ _ _ _ Hr). }
+  destruct Hs0 as [L0 P0]. rewrite (Hsingle r1 s0 L0) in Hs.
+  destruct (metro_single_spec _ _ _ _ _ _ _ _ Hs) as (L1 & P1 & Z1).
+  split; [congruence|]. split; [apply P1, P0|]. split; [exact Hv|].
+  intros Hz si Hsi. rewrite Hsi in H0. subst s0. apply Z1, Hz.
+Qed.
+
+Theorem c_anneal_quso_spec N t tab Ts n io init seed res :
+  qvalid N t -> NoDup (map fst t) ->
+  c_anneal_quso (quso_flatten N t) tab Ts n io init seed = Some res ->
+  match init with Some si => length si = N /\ pm1 si | None => True end ->
+  let E := E_puso (puso_flatten t) in
+  length res = n /\
+  forall s v, In (s, v) res ->
+    length s = N /\ pm1 s /\ v == E s /\ (all_zero Ts -> forall si, init = Some si -> E s <= E si).
+Proof.
+  intros Hv Hnd H Hinit E. unfold c_anneal_quso in H.
+  pose proof (flatten_ok N t Hv) as Ha. pose proof (ok_lenh _ _ Ha) as Lh. rewrite Lh in H.
+  assert (HE : exact_dE (quso_flatten N t) N E).
+  { intros s i Ls Hi. apply quso_flip_energy; [exact Hv| exact Hnd| lia]. }
+  destruct (anneal_metro_spec _ _ E tab io Ts N init n _ res H) as [A B].
+  - intros r0 s0 L0. apply (quso_single_refines _ N E); assumption.
+  - exact Hinit.
+  - split; [exact A|]. intros s v Hin. destruct (B s v Hin) as (L & P & V & Z).
+    split; [exact L|]. split; [exact P|]. split; [rewrite V; apply quso_kernel_value_model; assumption| exact Z].
+Qed.
+
+Theorem c_anneal_puso_refined len a tab Ts n io init seed res :
+  nodup_keys a ->
+  c_anneal_puso len a tab Ts n io init seed = Some res ->
+  match init with Some si => length si = len /\ pm1 si | None => True end ->
+  length res = n /\
+  forall s v, In (s, v) res ->
+    length s = len /\ pm1 s /\ v = E_puso a s /\ (all_zero Ts -> forall si, init = Some si -> E_puso a s <= E_puso a si).
+Proof.
+  intros Hn H Hinit. unfold c_anneal_puso in H.
+  apply (anneal_metro_spec _ _ (E_puso a) tab io Ts len init n _ res H); [|exact Hinit].
+  intros r0 s0 _. apply puso_single_refines, Hn.
+Qed.
+
+(* ---- packaging: labels and offset ---- *)
+Lemma package_spec p res : length (package p res) = length res /\
+  forall st v, In (st, v) (package p res) -> exists s v0, In (s, v0) res /\ v = v0 + get_sq (p_model p) [] /\
+    st = map (fun k => (match assoc_get k (p_rmp p) with Some l => l | None => k end, nth k s 0%Z)) (seq 0 (p_N p)).
+Proof.
+  unfold package. split; [apply map_length|]. intros st v Hin. apply in_map_iff in Hin.
+  destruct Hin as ([s v0] & E & Hin). injection E as <- <-. exists s, v0. auto.
+Qed.
